@@ -240,7 +240,7 @@ def type_listing(F, S):
             for d in nd.get("decls", []):
                 if ("var", d.get("n"), d.get("d")) == cont and "init" in d:
                     it = fn.term(d["init"])
-                    seeded = it[0] == "call" and it[1].endswith("GetFilesFromDirectory") and it[3] == (ext,)
+                    seeded = it == F.call_value(RM + "::GetFilesFromDirectory", ("this",), (ext,), pred=lambda f: "basic_string" in f.key.split("(")[1])
     good = seeded and all(fn.term(r["value"]) == cont for r in rets)
     inst = RM + "::GetAllFilenamesOfType#same-list"
     if good:
